@@ -362,11 +362,23 @@ def trace_block(fn, block, env0=None, month_classes=False, iterations=1, elem_at
                 return Path((obj.name, attr))
             return old(self, obj, attr, node)
 
+        old_gi = sx.Interp.getitem
+
+        def patched_gi(self, obj, key, node):
+            # result k of a call whose tuple was kept whole first: `t = f(x); a = t[0]` reads like `a, b = f(x)`
+            if isinstance(obj, Path) and len(obj.parts) == 1 and obj.idx is None and isinstance(obj.parts[0], str) \
+                    and obj.parts[0].startswith(("ret:", "elemcall:")) and "#" not in obj.parts[0].split("(")[0] and isinstance(key, Rat) and key.is_const() \
+                    and key.const_value().denominator == 1 and key.const_value() >= 0:
+                return Path((f"{obj.parts[0]}#{int(key.const_value())}",))
+            return old_gi(self, obj, key, node)
+
         sx.Interp.getattr = patched
+        sx.Interp.getitem = patched_gi
         try:
             return orig_run()
         finally:
             sx.Interp.getattr = old
+            sx.Interp.getitem = old_gi
 
     return run()
 
